@@ -200,7 +200,9 @@ def run_tagged_v1(ctx, rng):
                              f'declaring the documented effective settings {cs["eff"]!r} itself gives {want!r}'[:1200], detail=src)
             # ---- what is dumped for the nested part loads back (whenever the twin's own dump loads back into the twin)
             N, W = built.get(cs['n']['info']['name']), built_t.root
-            kw = dict(cs['vals'], **({'rest': {}} if 'rest' in cs['names'] else {}))
+            # (an empty CatchAll field holds what a load leaves there: its default None, else an empty dict)
+            rest_none = any(f.get('catch_all') and f.get('dflt') == ['lit', None] for f in cs['n']['info']['fields'])
+            kw = dict(cs['vals'], **({'rest': None if rest_none else {}} if 'rest' in cs['names'] else {}))
             nv, wv = N(**kw), W(**kw)
             inner = link_val(l1, built.get(cs['below']['info']['name'])(leaf=link_val(l2, nv)) if three else nv)
             x = built.root(child=inner)
